@@ -35,7 +35,25 @@ def impl(case) -> str:
 
     K = 2 ** case["k"]
     beh = case["beh"]
-    clock = task.Clock()
+    if case.get("reactor"):
+        from twisted.internet.base import ReactorBase
+
+        class Reactor(ReactorBase):          # reactor-like clock: what a call schedules waits for the next iteration
+            _t = 0.0
+
+            def installWaker(self):
+                pass
+
+            def seconds(self):
+                return self._t
+
+            def advance(self, amount):
+                self._t += amount
+                self.runUntilCurrent()
+
+        clock = Reactor()
+    else:
+        clock = task.Clock()
     toks, outstanding, ncalls, gens = [], [], [0], [0]
     restart_pending = [False]
 
@@ -66,7 +84,7 @@ def impl(case) -> str:
     for o in case["ops"]:
         try:
             if o[0] == "start":
-                if outstanding and not lc.running and o[1] > 0:
+                if outstanding and not lc.running and o[1] >= 0:
                     restart_pending[0] = True
                 g = gens[0]
                 d = lc.start(o[1] / K, now=o[2])
@@ -90,7 +108,8 @@ def impl(case) -> str:
                 lc.reset()
         except (AssertionError, ValueError):
             toks.append("XA")
-        toks.append("[r%d;%s]" % (int(bool(lc.running)), ",".join(exact(dc.getTime(), K) for dc in clock.getDelayedCalls())))
+        toks.append("[r%d;%s]" % (int(bool(lc.running)), ",".join(exact(dc.getTime(), K)
+                                                               for dc in sorted(clock.getDelayedCalls(), key=lambda dc: dc.getTime()))))
     _RESTART_WHILE_PENDING[stable_hash(case)] = restart_pending[0]
     return " ".join(toks)
 
@@ -113,6 +132,9 @@ def oracle(case, obs):
         pos[0] += 1
         return toks[pos[0] - 1]
 
+    def peek():
+        return toks[pos[0]] if pos[0] < len(toks) else None
+
     beh = case["beh"]
     now = 0
     running = False
@@ -124,10 +146,12 @@ def oracle(case, obs):
     unfired_gen = None         # the start() Deferred that has to fire when the loop ends
     ncalls = 0
     epoch_clean = True         # no reset / restart so far: the count law applies
-    last_counted = None        # boundary index at the last countCallable call
+    last_counted_time = None   # time of the last countCallable call
     count_sum = 0
 
     def boundary_after(t):
+        if interval == 0:
+            return t                   # interval 0: as soon as possible = the next iteration of the clock
         return start + ((t - start) // interval + 1) * interval
 
     def expect_done(ok):
@@ -153,25 +177,35 @@ def oracle(case, obs):
         return expect_done(False)
 
     def call_f():
-        nonlocal ncalls, nxt, waiting, running, last_counted, count_sum, start, epoch_clean
+        nonlocal ncalls, nxt, waiting, running, last_counted_time, count_sum, start, epoch_clean
         nxt = None
-        if case["count"]:
-            t = take()
+        if case["count"] and interval == 0:
+            if take() != "n1":
+                return fail("withCount with interval 0 always passes 1", "count")
+        elif case["count"]:
             idx = (now - start) // interval
-            if epoch_clean:
-                base = last_counted if last_counted is not None else (-1 if run_at_start else 0)
-                want = idx - base
-                if t != f"n{want}":
-                    return fail(f"withCount: got {t} at {now}, {want} boundaries elapsed since the last call", "count")
-                last_counted = idx
-                count_sum += want
-                if count_sum != idx + (1 if run_at_start else 0):
-                    return fail("counts do not sum to the boundaries elapsed", "count-sum")
-            elif t is None or not t.startswith("n"):
-                # after reset()/restart the reference epoch changed: the count law is not defined; a skipped call
-                # (count <= 0, countCallable not invoked) is possible: then nothing was consumed
-                pos[0] -= 1 if t is not None else 0
+            # boundary index of the last counted call relative to the current starttime; after reset()/restart the
+            # last counted call lies before starttime: whole intervals between it and starttime carry over
+            if last_counted_time is None:
+                base = -1 if run_at_start else 0
+            elif last_counted_time >= start:
+                base = (last_counted_time - start) // interval
+            else:
+                base = -((start - last_counted_time) // interval)
+            want = idx - base
+            if want <= 0:
+                # nothing to count (possible only for the immediate call of a restart): countCallable is skipped
+                if (peek() or "").startswith("n"):
+                    return fail(f"withCount passed {peek()} although no boundary elapsed", "count")
                 return completed_ok()
+            t = take()
+            if t != f"n{want}":
+                return fail(f"withCount: got {t} at {now}, {want} boundaries elapsed since the last counted call", "count")
+            count_sum += want
+            if epoch_clean and count_sum != idx + (1 if run_at_start else 0):
+                return fail("counts do not sum to the boundaries elapsed", "count-sum")
+        if case["count"]:
+            last_counted_time = now
         t = take()
         want = f"c{ncalls}@{now}"
         if t == want + "!":
@@ -194,9 +228,9 @@ def oracle(case, obs):
     restart_class = False
     for o in case["ops"]:
         if o[0] == "start":
-            if running or o[1] <= 0:
+            if running or o[1] < 0:
                 if take() != "XA":
-                    return fail("start() on a running loop / with a non-positive interval must raise", "start-assert")
+                    return fail("start() on a running loop / with a negative interval must raise", "start-assert")
             else:
                 if waiting:
                     restart_class = True
@@ -270,7 +304,8 @@ def oracle(case, obs):
 
 def rand_case(rng, restart=False):
     k = rng.choice([0, 1, 3, 10])
-    interval = rng.choice([1, 2, 3, 5, 8, 7 * 2 ** 20, 1000])
+    reactor = rng.random() < 0.35
+    interval = rng.choice([1, 2, 3, 5, 8, 7 * 2 ** 20, 1000] + ([0, 0, 0] if reactor else []))
     nb = rng.randrange(0, 10)
     weights = rng.choice([["ret"] * 6 + ["defer"] * 3 + ["raise"], ["ret", "defer"], ["ret"] * 8 + ["stopret", "stopdefer",
                          "resetret", "raise", "defer"], ["defer"] * 3 + ["stopdefer", "ret"]])
@@ -281,13 +316,13 @@ def rand_case(rng, restart=False):
         if r < 0.55:
             kind = rng.random()
             if kind < 0.4:
-                a = rng.randrange(0, interval + 1)                     # sub-interval step
+                a = rng.randrange(0, interval + 1)                     # sub-interval step (0 for interval 0)
             elif kind < 0.7:
                 a = interval * rng.randrange(1, 4) + rng.choice([0, 0, 1, interval // 2])
             elif kind < 0.85:
-                a = interval * rng.randrange(5, 1000) + rng.randrange(0, interval)   # jump of many intervals
+                a = interval * rng.randrange(5, 1000) + rng.randrange(0, interval + 1)   # jump of many intervals
             else:
-                a = interval - 1 if rng.random() < 0.5 else interval + 1
+                a = max(0, interval - 1) if rng.random() < 0.5 else interval + 1
             ops.append(["adv", a])
         elif r < 0.8:
             ops.append(["fire", rng.random() < 0.85])
@@ -296,17 +331,19 @@ def rand_case(rng, restart=False):
         elif r < 0.95:
             ops.append(["reset"])
         else:
-            ops.append(["start", rng.choice([interval, 1, 3, -1]), rng.random() < 0.5])
+            ops.append(["start", rng.choice([interval, 1, 3, -1] + ([0] if reactor else [])), rng.random() < 0.5])
     if restart:
         ops.append(["stop"])
         ops.append(["start", interval, rng.random() < 0.7])
         for _ in range(rng.randrange(1, 8)):
             ops.append(rng.choice([["adv", interval], ["fire", True], ["adv", 1], ["stop"]]))
-    return {"k": k, "count": rng.random() < 0.5, "beh": beh, "ops": ops}
+    return {"k": k, "count": rng.random() < 0.5, "beh": beh, "ops": ops, "reactor": reactor}
 
 
 ALPHABET = [["adv", 1], ["adv", 2], ["adv", 3], ["adv", 7], ["fire", True], ["fire", False], ["stop"], ["reset"],
             ["start", 3, True]]
+ALPHABET0 = [["adv", 0], ["adv", 2], ["fire", True], ["fire", False], ["stop"], ["reset"], ["start", 0, True],
+             ["start", 2, False]]
 BEHS = [[], ["defer"], ["ret", "defer", "ret", "defer"], ["ret", "raise"], ["stopret"], ["defer", "stopdefer"],
         ["ret", "resetret"]]
 
@@ -328,7 +365,17 @@ def gen(rng, tier):
                         if tier != "quick" and n == depth - 1 and rng.random() > 0.5:
                             continue
                         ops = [["start", 3, nowflag]] + [ALPHABET[a] for a in word] + [["adv", 3]]
-                        cases.append({"k": 1, "count": count, "beh": beh, "ops": ops})
+                        cases.append({"k": 1, "count": count, "beh": beh, "ops": ops, "reactor": count and nowflag})
+    # interval 0 ("as fast as possible") on the reactor-like clock: one call per iteration
+    for nowflag in (True, False):
+        for count in (False, True):
+            for beh in BEHS[:5]:
+                for n in range(1, depth):
+                    for word in itertools.product(range(len(ALPHABET0)), repeat=n):
+                        if n == depth - 1 and rng.random() > (0.3 if tier == "quick" else 0.5):
+                            continue
+                        ops = [["start", 0, nowflag]] + [ALPHABET0[a] for a in word] + [["adv", 0], ["adv", 1]]
+                        cases.append({"k": 0, "count": count, "beh": beh, "ops": ops, "reactor": True})
     for _ in range(200 if tier == "quick" else 4000):
         cases.append(rand_case(rng))
     for _ in range(40 if tier == "quick" else 500):
@@ -346,6 +393,14 @@ def corpus():
         # stop while the Deferred is unfired: start() Deferred fires when it completes; failure path
         {"k": 0, "count": False, "beh": ["defer", "raise"], "ops": [["start", 2, False], ["adv", 2], ["stop"], ["adv", 5],
                                                                  ["fire", False]]},
+        # reset() with withCount: the whole intervals between the last counted call and the reset carry over
+        {"k": 0, "count": True, "beh": [], "ops": [["start", 4, True], ["adv", 4], ["adv", 9], ["reset"], ["adv", 4], ["adv", 9],
+                                                    ["reset"], ["adv", 3], ["adv", 1]]},
+        # interval 0 on a reactor-like clock: one call per iteration, count always 1; then a restart with an interval
+        {"k": 0, "count": True, "beh": ["ret", "defer"], "reactor": True,
+         "ops": [["start", 0, True], ["adv", 0], ["adv", 5], ["fire", True], ["adv", 0], ["stop"], ["start", 2, True], ["adv", 3]]},
+        # now=False: the first call is at start + interval, not before
+        {"k": 1, "count": True, "beh": [], "ops": [["adv", 3], ["start", 5, False], ["adv", 4], ["adv", 1], ["adv", 5]]},
         # known finding: restart while the previous invocation's Deferred is unfired
         {"k": 0, "count": False, "beh": ["defer", "defer"], "ops": [["start", 1, True], ["stop"], ["start", 1, True],
                                                                  ["fire", True], ["fire", True], ["adv", 1]]},
@@ -412,7 +467,8 @@ SPEC = Spec(
          "from inside f, restarts; a stream that restarts while a Deferred is unfired (known-finding class); "
          "non-trivial = f called at least twice; distinct by (case, observation)",
     trusted=["hand-written model coq/C10/Model.v (tied by this correspondence run only)",
-             "the loop is the only user of its task.Clock; interval > 0 (interval 0 never terminates on task.Clock)",
+             "the loop is the only user of its clock (task.Clock, or a ReactorBase subclass with a controlled seconds() "
+             "for 35% of the random cases and for every interval-0 case: interval 0 never terminates on task.Clock)",
              "cases that call start() while a Deferred returned by f is unfired are checked by the oracle only "
              "(exceptions raised inside Deferred callbacks are swallowed and are not modelled)"],
     assumptions=["float arithmetic (+, -, %, /, int(), comparisons) is exact, resp. correctly truncated, on the "
